@@ -128,6 +128,11 @@ func (pa *peerAddrs) PopIfExpired(now time.Time) (*expiringAddr, bool) {
 
 func (pa *peerAddrs) Update(a *expiringAddr) {
 	if a.heapIndex == -1 {
+		// a was not in the heap (it had a connected TTL). If it no longer
+		// has one, it must be tracked for expiry from now on.
+		if !a.IsConnected() {
+			heap.Push(pa, a)
+		}
 		return
 	}
 	if a.IsConnected() {
